@@ -663,7 +663,9 @@ impl Sources {
       collector.push_str("const GLOBAL_STRING_");
       collector.push_str(&i.to_string());
       collector.push_str(": _Str = [0, `");
-      collector.push_str(s.as_str(heap));
+      // The text sits inside a template literal: a back quote would end it and `${` would start
+      // a substitution, so both are escaped to stay literal characters of the string.
+      collector.push_str(&s.as_str(heap).replace('`', "\\`").replace("${", "\\${"));
       collector.push_str("` as unknown as number];\n");
       str_lookup_table.insert(*s, i);
     }
